@@ -232,6 +232,50 @@ def record_task(task):
     return acc
 
 
+PAIR_SCRIPTS = [[1, 1, 1], [4, 500, 4], [1012, 1, 1011], [1500, 600, None], [300, 1012, 300], [None, 1, 1],
+                [2024, 1, 1], [700, 700, 700]]
+
+
+def pair_task(task):
+    """two Unblock1014 objects on two different files, their reads interleaved in every order: each must deliver
+    its own payload stream"""
+    from cardutil.mciipm import Unblock1014
+    from vf.engine import sched
+    acc = core.Acc()
+    pay_a = blk_ref.position_code(1012 * 3, _SEED)
+    pay_b = bytes(255 - x for x in blk_ref.position_code(1012 * 2 + 7, _SEED + 1))[:1012 * 2]
+    file_a, file_b = blk_ref.block(pay_a), blk_ref.block(pay_b)
+    merges = list(sched.merges([3, 3]))
+    for ia, ib in task['pairs']:
+        sa, sb = PAIR_SCRIPTS[ia], PAIR_SCRIPTS[ib]
+        for order in merges:
+            ua, ub = Unblock1014(io.BytesIO(file_a)), Unblock1014(io.BytesIO(file_b))
+            pos = {0: 0, 1: 0}
+            step = {0: 0, 1: 0}
+            acc.transitions += len(order)
+            acc.case(('pair', ia, ib, order), nontrivial=True, outcome='two_unblockers')
+            case = {'pair': [ia, ib], 'order': list(order), 'seed': _SEED}
+            for who in order:
+                u, pay, script = (ua, pay_a, sa) if who == 0 else (ub, pay_b, sb)
+                n = script[step[who]]
+                step[who] += 1
+                try:
+                    out = u.read() if n is None else u.read(n)
+                except Exception as ex:
+                    acc.viol('c05.pair.exception', case, repr(ex), 'payload slice')
+                    break
+                exp = pay[pos[who]:] if n is None else pay[pos[who]:pos[who] + n]
+                if bytes(out) != exp:
+                    acc.viol('c05.pair.foreign_bytes', case, 'reader %d read(%s) at offset %d returned %d bytes that are '
+                             'not its own payload' % (who, n, pos[who], len(out)), 'its own next %d bytes' % len(exp),
+                             'two unblockers on different files used alternately')
+                    break
+                pos[who] += len(exp)
+    acc.sample({'two_unblockers': True, 'scripts': [PAIR_SCRIPTS[task['pairs'][0][0]], PAIR_SCRIPTS[task['pairs'][0][1]]],
+                'merges': len(merges)})
+    return acc
+
+
 def run(tier, seed):
     global _TIER, _SEED
     _TIER, _SEED = tier, seed
@@ -257,6 +301,9 @@ def run(tier, seed):
         lists += [[a, b, c] for a in sub for b in sub for c in sub]
     for a in core.pmap(record_task, [{'lists': ch} for ch in core.spread(lists, 32)]):
         acc.merge(a)
+    prs = [(a, b) for a in range(len(PAIR_SCRIPTS)) for b in range(len(PAIR_SCRIPTS))]
+    for a in core.pmap(pair_task, [{'pairs': ch} for ch in core.chunks(prs, 16)]):
+        acc.merge(a)
     caps = [acc.counters['bfs_cap_hit']] if 'bfs_cap_hit' in acc.counters else []
     if acc.counters.get('abstraction_mismatches'):
         caps.append('%d states behaved differently from their two representative histories'
@@ -270,7 +317,8 @@ def run(tier, seed):
                 'delivered further reads return nothing. A case = (state, read size). Plus: unblock_1014 inverts '
                 'block_1014 for every length; every truncation length 0..3042 and every value of each of the 6 '
                 'trailer bytes of a 3-block file must be refused; blocked vs unblocked record reading over %d '
-                'record-length lists.' % (maxb, 'every read size 1..2024 and read()' if tier == 'thorough' else
+                'record-length lists; two unblockers on different files with their reads interleaved in every order '
+                '(64 script pairs x 20 merges).' % (maxb, 'every read size 1..2024 and read()' if tier == 'thorough' else
                                          'a boundary-relative menu of read sizes (around the buffer length, 1012, '
                                          '2024, the distance to the next block edge) and read()', len(lists)),
         'assumptions': ['read(0) is excluded: the signature default 0 means "no size", so an explicit 0 cannot be '
@@ -298,6 +346,9 @@ def replay_case(case):
         return a
     if 'records' in case:
         return record_task({'lists': [case['records']]})
+    if 'pair' in case:
+        a = pair_task({'pairs': [tuple(case['pair'])]})
+        return a
     try:
         k, why = one_read(case['blocks'], case['hist'], case['read'])
     except Exception as ex:
